@@ -74,6 +74,18 @@ def replay_wrapper(inputs, obl):
     k('g::{x,y,z}')
     if list(k['g'](1, 2, 3)) != [1, 2, 3]:
         problems.append("arguments not passed in order")
+    # a wrapper made without a name (as the timer does) resolves the name when it is made and follows a redefinition made BEFORE its first call
+    try:
+        from klongpy.types import KGFnWrapper as _W
+        from klongpy.core import KGSym as _S
+        k5 = KlongInterpreter()
+        k5('cb::{x+1}')
+        w5 = _W(k5, k5._context[_S('cb')])
+        k5('cb::{x+2}')
+        if w5(1) != 3:
+            problems.append(f"KGFnWrapper(klong, fn) made while cb was {{x+1}}, cb redefined to {{x+2}} before the first call: call gave {w5(1)!r}, the current definition gives 3")
+    except Exception as e:
+        problems.append(f"wrapper without a name raised {type(e).__name__}: {e}")
     # list arguments on both paths (current definition / original after the name is gone)
     k3 = KlongInterpreter()
     k3('s::{+/x}')
